@@ -9,6 +9,8 @@ function treats it:
                  a guard `if (this != &other)` around the whole body does not count as a condition)
     from:<g>     taken from a DIFFERENT member of the source
     conditional  taken from the same member, but only under a condition that is not the self-assignment guard
+    shallow-pointer-copy   a COPY operation duplicates a shared_ptr / raw pointer member as it is (source and target then share
+                 the pointee); making a new object from it (`->Clone()`, `make_unique`) is `same`
     reset        given a value that does not depend on the source (allowed for the moved-from side only, never here)
     missing      not mentioned at all (a constructor then default-initialises it, an assignment keeps the old value)
     base-call    (base classes) the corresponding special member of the base is invoked with the source
@@ -146,6 +148,8 @@ def classify(fn, cls, kind):
     params = [c for c in inner(fn) if c.get("kind") == "ParmVarDecl"]
     other_id = params[0].get("id")
     fields = [c.get("name") for c in inner(cls) if c.get("kind") == "FieldDecl"]
+    ftype = {c.get("name"): (c.get("type") or {}).get("qualType", "") for c in inner(cls) if c.get("kind") == "FieldDecl"}
+    is_copy = kind.startswith("copy")
     bases = [(b.get("type") or {}).get("qualType", "?") for b in (cls.get("bases") or [])]
     status = {}
 
@@ -156,6 +160,9 @@ def classify(fn, cls, kind):
             st = "reset"
         elif srcs == {f}:
             st = "conditional" if conditional else "same"
+            # a COPY that duplicates a shared_ptr or a raw pointer shares the pointee between source and target
+            if st == "same" and is_copy and note.shallow and (re.search(r"\bshared_ptr\b", ftype.get(f, "")) or re.search(r"\*\s*(const\s*)?$", ftype.get(f, ""))):
+                st = "shallow-pointer-copy"
         elif f in srcs and len(srcs) > 1:
             st = "same+" + "+".join(sorted(srcs - {f}))
         else:
@@ -169,6 +176,20 @@ def classify(fn, cls, kind):
             status[f] = "conditional"
 
     base_called = set()
+    note.shallow = True
+
+    def rhs_is_plain(e):
+        """the right-hand side is just the member of the source (possibly cast / moved), not a call that makes a new object"""
+        e = strip(e)
+        while e.get("kind") in ("CXXConstructExpr",) and len(inner(e)) == 1:
+            e = strip(inner(e)[0])
+        if e.get("kind") == "MemberExpr":
+            return True
+        if e.get("kind") == "CallExpr":
+            callee = strip(inner(e)[0])
+            if (callee.get("referencedDecl") or {}).get("name") in ("move", "forward"):
+                return rhs_is_plain(inner(e)[1])
+        return False
 
     def visit(n, conditional):
         k = n.get("kind")
@@ -183,6 +204,7 @@ def classify(fn, cls, kind):
             lhs, rhs = inner(n)
             f = this_field(lhs)
             if f:
+                note.shallow = rhs_is_plain(rhs)
                 note(f, other_fields(rhs, other_id, set()), conditional)
         if k == "CXXOperatorCallExpr":
             ch = inner(n)
@@ -191,6 +213,7 @@ def classify(fn, cls, kind):
             if nm == "operator=" and len(ch) >= 3:
                 f = this_field(ch[1])
                 if f:
+                    note.shallow = rhs_is_plain(ch[2])
                     note(f, other_fields(ch[2], other_id, set()), conditional)
         if k == "CXXMemberCallExpr":
             me = strip(inner(n)[0])
@@ -226,6 +249,8 @@ def classify(fn, cls, kind):
             for x in inner(c):
                 other_fields(x, other_id, srcs)
             if tgt.get("kind") == "FieldDecl":
+                xs = inner(c)
+                note.shallow = len(xs) == 1 and rhs_is_plain(xs[0])
                 note(tgt.get("name"), srcs, False)
             elif c.get("baseInit") is not None:
                 if "*" in srcs:
